@@ -11,6 +11,7 @@ CONSTANTS
   MaxPrints = 2
   MaxAuth = 1
 VIEW view
+CONSTRAINT Canon
 INVARIANTS TypeOK GaugeExact NoDoubleCount AsnLedger OutcomeSum AsnSumsEpoch QuiescentZero Ledger TotalIsSum AsnSums AsnGaugesNonNeg KonGaugeExact KonLedger
 PROPERTIES PrintKeepsGauges
 CHECK_DEADLOCK FALSE
